@@ -263,7 +263,7 @@ func Drive(p Prop, tier string, opt Options) int {
 		cmd.Stderr = ef
 		cmd.Stdout = ef
 		cmd.Env = append(os.Environ(),
-			"GORACE=halt_on_error=0 log_path="+filepath.Join(work, tag+".race"),
+			"GORACE=halt_on_error=0 exitcode=0 log_path="+filepath.Join(work, tag+".race"),
 			"VERIF_WORKDIR="+work,
 		)
 		err := cmd.Run()
